@@ -3,10 +3,6 @@ import RtenVerif.Props.C10Bcast
 /-! # C10 — `Gather` with a vector index, `Concat` of any number of valued inputs, `Expand` -/
 namespace RtenVerif.ShapeInfer
 
-/-- Reference `Gather(axis = 0)` on a vector with ONNX negative-index resolution. -/
-def cgather (vs : List Int) (idxs : List Int) : Option (List Int) :=
-  mapO (fun i => (resolveIndex vs.length i).bind fun k => vs[k]?) idxs
-
 /-- **C10.T1-gather (vector index)**: a valued vector gathered with a constant index vector. -/
 theorem c10_gather_vector_sound (σ : Env) (es : List Sym) (vs : List Int) :
     ∀ (idxs : List Int) (r : STn) (w : List Int),
@@ -59,9 +55,6 @@ theorem c10_gather_vector_sound (σ : Env) (es : List Sym) (vs : List Int) :
 inductive AgreesL (σ : Env) : List STn → List CT → Prop
   | nil : AgreesL σ [] []
   | cons {t c ts cs} : Agrees σ t c → AgreesL σ ts cs → AgreesL σ (t :: ts) (c :: cs)
-
-/-- Reference `Concat(axis = 0)` of rank ≤ 1 value-carrying tensors. -/
-def cconcat (cs : List CT) : Option CT := (mapO CT.values cs).map fun vs => .vector vs.flatten
 
 theorem values_agree (σ : Env) (t : STn) (c : CT) (es : List Sym) (vs : List Int)
     (hag : Agrees σ t c) (hes : t.values = some es) (hv : c.values = some vs) : evalList σ es = some vs := by
@@ -123,10 +116,6 @@ theorem c10_concat_sound (σ : Env) : ∀ (ts : List STn) (cs : List CT) (r : ST
       exact ⟨_, rfl, key ts cs ess vss hag h1 h2⟩
 
 /-! ## `Expand` with a valued target shape = `BinaryOp` against that shape -/
-
-/-- `Expand(data, shape)` when the `shape` input has values: the rule is `BinaryOp` applied to the
-data and a tensor of shape `sizes` (rten-shape-inference/src/ops/layout.rs). -/
-def expandInfer (data : STn) (sizes : List Sym) : Except Err STn := binaryShape data (.shape sizes)
 
 /-- **C10.T1-expand**: with all executed sizes ≥ 1, the inferred dimensions evaluate to the NumPy
 broadcast of the executed data shape with the instantiated target (which is what `Expand` produces). -/
